@@ -47,6 +47,12 @@ let () =
       | "CASE" :: n :: cap :: order :: nev :: _sf :: nops :: _ ->
         incr caseno;
         let n = int_of_string n and nops = int_of_string nops in
+        (* the freshly constructed state *)
+        print_string (Printf.sprintf "F %d" !caseno);
+        List.iter (fun x -> print_char ' '; print_string (string_of_int (int_of_nat x)))
+          (fresh_case (nat_of_int n) (nat_of_int (int_of_string cap)) (int_of_string order = 1)
+             (nat_of_int (int_of_string nev)));
+        print_newline ();
         let ops = List.init nops (fun _ -> parse_op n (input_line stdin)) in
         let res = run_case (nat_of_int n) (nat_of_int (int_of_string cap))
             (int_of_string order = 1) (nat_of_int (int_of_string nev)) ops in
